@@ -10,6 +10,7 @@ implementations written in the harness (own structural key, own nearest-ancestor
               tree application; compress on/off; shared vcache/rcache across calls; F(e) dispatch
   Transformer random tables of expression-rewriting handlers incl. reuse_variable / reconstruct_variable, several
               transformer objects applied one after the other to expressions sharing variables
+                (MultiFunction classes are also generated as two-level hierarchies: base instantiated first)
   DAGTraverser  random singledispatch registrations (post-order / pre-order rules), and rules that pass a context
                 to the operands through keyword arguments (a subset of them, in either order)
 All generated algorithm classes deliberately share one module and one __qualname__.
@@ -192,8 +193,10 @@ def make_table(rng, e, catch_all=True):
     return table
 
 
-def make_multifunction(table):
+def make_multifunction(table, base=None):
     from ufl.corealg.multifunction import MultiFunction
+
+    base = base or MultiFunction
 
     def cut_handler(hn):
         def h(self, o):  # two parameters: a cut-off handler
@@ -207,7 +210,7 @@ def make_multifunction(table):
 
     ns = {hn: (cut_handler(hn) if kind == "cut" else post_handler(hn)) for hn, kind in table.items()}
     # same module and qualified name for every generated class, on purpose
-    cls = type("GeneratedAlgorithm", (MultiFunction,), ns)
+    cls = type("GeneratedAlgorithm", (base,), ns)
     cls.__qualname__ = "GeneratedAlgorithm"
     return cls
 
@@ -324,8 +327,29 @@ def check_multifunction(case, exprs, K, rng):
     for t in range(case["ntables"]):
         e = exprs[t % len(exprs)]
         table = make_table(rng, e, catch_all=rng.random() < 0.85)
-        cls = make_multifunction(table)
+        if rng.random() < 0.35 and len(table) >= 2:
+            # a two-level hierarchy: the base algorithm (a subset of the handlers, some of the other kind) is
+            # instantiated and used first, the derived class adds / overrides handlers
+            names = list(table)
+            base_table = {}
+            for hn in names:
+                if hn == "expr" or rng.random() < 0.5:
+                    base_table[hn] = table[hn] if rng.random() < 0.7 else ("cut" if table[hn] == "post" else "post")
+            if len(base_table) == len(table) and all(base_table[h] == table[h] for h in table):
+                base_table.pop(names[-1])
+            Base = make_multifunction(base_table)
+            Fb = Base()
+            expb = tree_apply(e, base_table)
+            if not isinstance(expb, tuple) and map_expr_dag(Fb, e, compress=case["compress"]) != expb:
+                raise Violation("map_expr_dag result of the base algorithm differs from recursive tree application", {"kind": "map-dag-result"})
+            cls = make_multifunction({hn: k_ for hn, k_ in table.items() if base_table.get(hn) != k_}, base=Base)
+            derived = True
+        else:
+            cls = make_multifunction(table)
+            derived = False
         F = cls()
+        if derived:
+            used.add("derived-algorithm")
         exp = tree_apply(e, table)
         kw = {"compress": case["compress"]}
         if case["share_caches"]:
